@@ -510,7 +510,7 @@ META = {
     "explanation": "Byte-layout conformance of the event-stream frame writer as an abstract write trace with operand provenance (total/headers "
                    "lengths, CRC over the whole buffer at the two specified points, type tag, exact name/value/payload bytes), symbolic agreement of "
                    "the declared length constants with the bytes the trace writes, per-event header tables against the specification, and the "
-                   "termination/ordering structure of the wrapping stream. CRC-32 and big-endian encoding are library contracts.",
+                   "termination/ordering structure of the wrapping stream. CRC-32 and big-endian encoding are library contracts. Round 4: every header is written in every iteration of the header loop and counted by every run of the length fold (R2).",
     "not_decided": ["the CRC algorithm and big-endian encoding (crc32fast / bytes::BufMut contracts)", "the XML payload of Stats/Progress (C13)"],
     "assumptions": ["rustc nightly MIR construction", "S3 SelectObjectContent response appendix (frame layout and per-event headers)"],
 }
